@@ -39,7 +39,7 @@ BOUNDS = {
     "thorough": {"vertices": 3, "pool_links": 2, "links_created_by_step": 1, "pre_state_list_len": 3, "list_capacity": 5,
                  "ind_families": len(FAMILIES), "bmc_depth": 3, "call_depth": 60},
 }
-TIME_BUDGET = {"quick": 420, "thorough": 3000}
+TIME_BUDGET = {"quick": 420, "thorough": 1200}
 STUBS = ["uuid.uuid4 -> fresh distinct integer"]
 ASSUMPTIONS = [
     "IND: before the step the heap holds at most 3 vertices and 2 links (classes from the stated menus) and no "
@@ -122,7 +122,8 @@ def do_step(B, fam, verts, links, tag, lcls_choice=None):
 
 
 def scenario(B, p):
-    verts = make_vertices(B, 3)
+    # one pool vertex is of a falsy Vertex subclass (legal: an empty container-like vertex)
+    verts = make_vertices(B, 3, ["Vertex", "FalsyVertex", "Vertex"])
     links = make_links(B, p["pool"])
     if p["mode"] == "ind":
         symbolic_assoc_state(B, verts, links, p["K"], p["cap"])
